@@ -89,8 +89,12 @@ func main() {
 				code = 2
 			}
 		}()
+		if os.Getenv("VERIF_ERRORS_FIRST") != "" {
+			props.ErrorsFirst() // (child processes only: the library's error paths are its first use)
+		}
 		fn(r)
 		props.OtherTarget(r)
+		props.ErrorsFirstChild(r)
 		return r.Finish()
 	}()
 	os.Exit(code)
